@@ -136,6 +136,10 @@ func (x *Exec) runTop() {
 		a.Typ = p.Type()
 		fr.vals[p] = a
 	}
+	x.replayArgs = args
+	if !x.discover {
+		x.replayIn = x.replayInputs(fn, args)
+	}
 	// objects passed by pointer are well-typed at entry and every reference they hold
 	// existed at entry
 	for i, p := range fn.Params {
@@ -166,12 +170,14 @@ func (x *Exec) runTop() {
 	}
 	// reachability of the body under the preconditions
 	x.cover("cover:requires", tTrue, "preconditions are satisfiable")
+	x.replayPre = len(x.lines)
 	exit, rets := x.run(fr, st.clone(), args)
 	// postconditions
 	penv := x.envAt(fr, nil, exit)
 	penv.at = nil
 	x.bindResults(penv, fn, tupleOf(rets, fn.Signature.Results()))
 	penv.postMode = true
+	var exitOut []*Obs
 	for k, en := range ct.Ensures {
 		label := en.Name
 		if label == "" {
@@ -225,7 +231,11 @@ func (x *Exec) runTop() {
 				}
 				rname := fmt.Sprintf("post#%s@[%s]", label, rtxt)
 				rname = fmt.Sprintf("%s#%d", rname, x.count(rname))
+				if !x.discover {
+					x.pendingOut = x.replayOutputs(fn, rst, fr.retVals[ri])
+				}
 				x.oblige("post", rname, rst.Guard, t, "postcondition (witnesses given) at return "+fmt.Sprint(ri+1)+": "+en.Text, fr.retBlock[ri].Instrs[len(fr.retBlock[ri].Instrs)-1].Pos(), false)
+				x.pendingOut = nil
 				conj = append(conj, mkImp(rst.Guard, t))
 			}
 			if en.At != "" && matched == 0 {
@@ -237,7 +247,14 @@ func (x *Exec) runTop() {
 			continue
 		}
 		t := x.evalBool(penv, en.E)
+		if !x.discover {
+			if exitOut == nil {
+				exitOut = x.replayOutputs(fn, exit, rets)
+			}
+			x.pendingOut = exitOut
+		}
 		x.oblige("post", "post#"+label, exit.Guard, t, "postcondition: "+en.Text, fn.Pos(), false)
+		x.pendingOut = nil
 	}
 	if ct.ModGiven {
 		x.frameObligations(fr, penv, exit)
